@@ -162,6 +162,10 @@ def negative_sierra_templates(out_dir):
         "merge_count": "felt252_is_zero([0]) { fallthrough() B([1]) };\nbranch_align() -> ();\njump() { M() };\nB:\nbranch_align() -> ();\nM:\nreturn();\n\nverif::f@0([0]: felt252) -> ();\n",
         # flow converging into a branch target
         "converge_into_branch_target": "felt252_is_zero([0]) { fallthrough() B([1]) };\nbranch_align() -> ();\ndup_felt([2]) -> ([2], [1]);\njump() { B() };\nB:\nbranch_align() -> ();\ndrop_felt([2]) -> ();\nreturn();\n\nverif::f@0([0]: felt252, [2]: felt252) -> ();\n",
+        # a call whose argument has a different type than the callee's parameter (the mutants of this template make the
+        # two copies of the callee's parameter types - signature.param_types and params[..].ty - disagree, so that the
+        # caller is consistent with one and the body with the other)
+        "call_arg_type": "libfunc call_g = function_call<user@verif::g>;\nlibfunc drop_u8 = drop<u8>;\nstore_felt([0]) -> ([0]);\ncall_g([0]) -> ();\nreturn();\ndrop_u8([0]) -> ();\nreturn();\n\nverif::f@0([0]: felt252) -> ();\nverif::g@3([0]: u8) -> ();\n",
         # a backward jump that changes the variable set (loop head sees an extra variable)
         "loop_changes_vars": "L:\ndup_felt([0]) -> ([0], [1]);\njump() { L() };\n\nverif::f@0([0]: felt252) -> ();\n",
     }
